@@ -275,13 +275,16 @@ def run(ctx):
             path = os.path.join(tmp, "bad2.xlsx")
             with open(path, "wb") as f:
                 f.write(blob[:cut])
-            for mode in ("raise", "yield", "continue"):
+            # (also under a CID whose end-of-data check fails on what was read before the fault: the data-format error must not get lost)
+            cid_end = interface.Cid()
+            cid_end.read("c16e", [["D", "Format", "Excel"], ["F", "a"], ["F", "b", "", "X"], ["C", "many", "DistinctCount", "a > 99"]])
+            for mode, cid_used in [(m_, c_) for c_ in (cid_f, cid_end) for m_ in ("raise", "yield", "continue")]:
                 try:
-                    items = list(validio.rows(cid_f, path, on_error=mode))
+                    items = list(validio.rows(cid_used, path, on_error=mode))
                     got_m = "ok:%d items%s" % (len(items), ", an error among them" if any(isinstance(i_, Exception) for i_ in items) else "")
                 except Exception as error:  # noqa
                     got_m = core.classify_exception(error)
-                ctx.count(key=("fault-mode", cut, mode), branch="fault-mode:" + got_m.split(":")[0])
+                ctx.count(key=("fault-mode", cut, mode, cid_used is cid_end), branch="fault-mode:" + got_m.split(":")[0])
                 if got_m != "data:Format":
                     ctx.violation("C16:fault-through-reader:%s:%s" % (mode, got_m.split(" ")[0].split(":")[0]), "workbook truncated at %d read with on_error=%s: %s" % (cut, mode, got_m),
                                   {"cut": cut, "mode": mode, "got": got_m})
